@@ -226,7 +226,7 @@ Section Loaders.
       + split; [exact (parse_floats_fail _ _ _ Hk Ex) | reflexivity].
     - exists []. cbn [firstn parse_floats]. repeat split.
       first [ left; split; apply repeat_length | right; split; reflexivity ].
-    - match type of L with match ?t with _ => _ end => destruct t as [out|r] end.
+    - destruct_loop L out r.
       + destruct L as (o & Ho & Hf & Hlen). rewrite firstn_all in Ho. rewrite Ho. f_equal.
         destruct Hlen as [[_ Hl]|[_ Hl]]; rewrite <- Hf, <- Hl, firstn_all; reflexivity.
       + destruct L as [-> ->]. reflexivity.
@@ -596,7 +596,7 @@ Section Loaders.
       exists []. rewrite Nat.mul_0_r. cbn [fst snd firstn dec skipn length]. rewrite ?repeat_length.
       repeat split. first [ left; split; reflexivity | right; split; reflexivity ].
     - (* after the loop *)
-      match type of L with match ?t with _ => _ end => destruct t as [st|r] end.
+      destruct_loop L st r.
       + destruct_state st. cbn [fst snd] in L. rewrite (bin_inv_done _ _ _ _ _ L). reflexivity.
       + destruct L as [-> Ho]. exact Ho.
   Qed.
@@ -830,7 +830,7 @@ Section Writers.
         rewrite (nth_error_firstn_S _ _ _ Hk), flat_map_app. cbn [flat_map]. rewrite app_nil_r. symmetry. apply app_assoc.
       + first [exact I | rewrite ?set_slot_length; assumption].
     - cbn [fst snd firstn flat_map]. rewrite app_nil_r. repeat split; try exact Hw1; try reflexivity.
-    - match type of L with match ?t with _ => _ end => destruct t as [st|r] end; [|contradiction].
+    - destruct_loop L st r; [|contradiction].
       destruct_state st. cbn [fst snd] in L. destruct L as (Hwf & Hc & _). rewrite firstn_all in Hc.
       match goal with |- context [GoSem.bufio_Flush ?w] =>
         destruct (GoSem.bufio_Flush w) as [e2 w2] eqn:E2; apply bufio_Flush_spec in E2; [destruct E2 as (-> & _ & Hd2 & Hb2) | exact Hwf]
@@ -918,7 +918,7 @@ Section Writers.
         * rewrite (nth_error_firstn_S _ _ _ Hj), count_after_app, <- Hn'. reflexivity.
         * first [exact I | rewrite ?set_slot_length; assumption].
       + cbn [firstn flat_map]. rewrite app_nil_r. repeat split; try assumption; try reflexivity.
-      + match type of Li with match ?t with _ => _ end => destruct t as [st|r] end; [|contradiction].
+      + destruct_loop Li st r; [|contradiction].
         destruct_state st. cbn [fst snd] in *. destruct Li as (Hwf' & Hc' & Hn' & Hd'). rewrite firstn_all in Hc', Hn'.
         rewrite (concat_firstn_S _ _ _ Hk), flat_map_app, count_after_app.
         split; [assumption|]. split; [|split].
@@ -926,7 +926,7 @@ Section Writers.
         * rewrite Hn', Hn. reflexivity.
         * assumption.
     - cbn [fst snd firstn concat flat_map]. rewrite app_nil_r. repeat split; try exact Hw1; try reflexivity.
-    - match type of L with match ?t with _ => _ end => destruct t as [st|r] end; [|contradiction].
+    - destruct_loop L st r; [|contradiction].
       destruct_state st. cbn [fst snd] in L. destruct L as (Hwf & Hc & Hn & _). rewrite firstn_all in Hc, Hn.
       (* Flush, Seek(0, 0), the header again *)
       match goal with |- context [GoSem.bufio_Flush ?w] =>
